@@ -1576,6 +1576,8 @@ void MDSDRV_Linker::add_song(RIFF& mds, const std::string& filename)
 			auto data = chunk.get_data();
 			uint32_t id = read_le32(data, 0);
 			uint32_t addr = seq_sdata + id * 2;
+			if((uint64_t)seq_sdata + (uint64_t)(id & 0x7fffffff) * 2 + 2 > seq.size())
+				throw InputError(nullptr, ".MDS data is malformed (data entry without a pointer slot)");
 			uint16_t offset = add_unique_data(std::vector<uint8_t>(data.begin()+4, data.end()));
 			printf("replace seq+%04x with %04x (Envelope)\n", addr, offset);
 			if(id & 0x80000000)
@@ -1588,6 +1590,8 @@ void MDSDRV_Linker::add_song(RIFF& mds, const std::string& filename)
 			// PCM header
 			auto data = chunk.get_data();
 			uint32_t addr = seq_sdata + read_le32(data, 0)*2;
+			if((uint64_t)seq_sdata + (uint64_t)(read_le32(data, 0) & 0x7fffffff) * 2 + 2 > seq.size())
+				throw InputError(nullptr, ".MDS data is malformed (PCM header without a pointer slot)");
 			Wave_Bank::Sample header;
 			header.from_bytes(std::vector<uint8_t>(data.begin()+4, data.end()));
 			if((uint64_t)header.position + header.size > pcmd.size())
